@@ -331,3 +331,107 @@ func parseValue(resp string) (uint64, error) {
 	}
 	return 0, fmt.Errorf("cannot parse solver value %q", resp)
 }
+
+// GetVarValues returns the model values of variables (one round trip).
+func (s *Solver) GetVarValues(vars []*Term) ([]uint64, error) {
+	if len(vars) == 0 {
+		return nil, nil
+	}
+	var sb strings.Builder
+	sb.WriteString("(get-value (")
+	for _, v := range vars {
+		sb.WriteString(s.ref(v))
+		sb.WriteByte(' ')
+	}
+	sb.WriteString("))\n")
+	s.send(sb.String())
+	var resp strings.Builder
+	depth := 0
+	started := false
+	for {
+		line, err := s.readLine()
+		if err != nil {
+			return nil, err
+		}
+		if strings.HasPrefix(line, "(error") {
+			s.Errors++
+			s.lastErr = line
+			return nil, fmt.Errorf("get-value: %s", line)
+		}
+		resp.WriteString(line)
+		resp.WriteByte(' ')
+		inq := false
+		for _, ch := range line {
+			if ch == '|' {
+				inq = !inq
+			}
+			if inq {
+				continue
+			}
+			if ch == '(' {
+				depth++
+				started = true
+			} else if ch == ')' {
+				depth--
+			}
+		}
+		if started && depth <= 0 {
+			break
+		}
+	}
+	// parse ((name val) (name val) ...): values are #x.., #b.., true, false
+	out := make([]uint64, 0, len(vars))
+	txt := resp.String()
+	i := 0
+	for len(out) < len(vars) {
+		// find next value token: skip the name (possibly quoted)
+		j := strings.IndexByte(txt[i:], '(')
+		if j < 0 {
+			break
+		}
+		i += j + 1
+		// skip whitespace and nested opening paren of the list
+		for i < len(txt) && (txt[i] == ' ' || txt[i] == '(') {
+			i++
+		}
+		if i < len(txt) && txt[i] == '|' {
+			k := strings.IndexByte(txt[i+1:], '|')
+			i += k + 2
+		} else {
+			for i < len(txt) && txt[i] != ' ' {
+				i++
+			}
+		}
+		for i < len(txt) && txt[i] == ' ' {
+			i++
+		}
+		k := i
+		for k < len(txt) && txt[k] != ')' && txt[k] != ' ' {
+			k++
+		}
+		tok := txt[i:k]
+		var v uint64
+		var err error
+		switch {
+		case tok == "true":
+			v = 1
+		case tok == "false":
+			v = 0
+		case strings.HasPrefix(tok, "#x"):
+			v, err = strconv.ParseUint(tok[2:], 16, 64)
+		case strings.HasPrefix(tok, "#b"):
+			v, err = strconv.ParseUint(tok[2:], 2, 64)
+		default:
+			err = fmt.Errorf("unexpected value token %q in %q", tok, txt)
+		}
+		if err != nil {
+			return nil, err
+		}
+		out = append(out, v)
+		i = k
+	}
+	if len(out) != len(vars) {
+		return nil, fmt.Errorf("get-value: parsed %d of %d values", len(out), len(vars))
+	}
+	return out, nil
+}
